@@ -1,4 +1,5 @@
 import Pms.Props.C12
+import Pms.Props.C12Mod
 
 #print axioms Pms.C12.hasDerivAt_div_id
 #print axioms Pms.C12.C12_lj_d1
@@ -14,3 +15,4 @@ import Pms.Props.C12
 #print axioms Pms.C12.C12_hh_d1_int
 #print axioms Pms.C12.C12_hh_d2_int
 #print axioms Pms.C12.C12_caller
+#print axioms Pms.ModShape.C12_module_shape
